@@ -39,7 +39,7 @@ from dask.dataframe.dask_expr._expr import (
     plain_column_projection,
 )
 from dask.dataframe.dispatch import make_meta, meta_nonempty
-from dask.dataframe.utils import is_scalar
+from dask.dataframe.utils import is_scalar, meta_series_constructor
 from dask.typing import no_default
 from dask.utils import M, apply, funcname
 
@@ -947,6 +947,32 @@ class Max(Reduction):
         "axis": 0,
     }
     reduction_chunk = M.max
+
+    @classmethod
+    def _partial(cls, df, **kwargs):
+        # The minimum/maximum of ``df`` as one row (a Series: one element) that
+        # keeps the dtypes of ``df``, which a transposed row of mixed dtypes or a
+        # list of scalars loses (NaN and NA are then mishandled downstream).  Data
+        # without rows has no minimum/maximum and contributes no row, instead of
+        # a NaN that would turn integers into floats and win with skipna=False.
+        out = cls.reduction_chunk(df, **kwargs)
+        if is_series_like(out):
+            out = out.to_frame().T
+            dtypes = df.dtypes[out.columns] if df.columns.is_unique else None
+        else:
+            out = meta_series_constructor(df)([out])
+            dtypes = df.dtype if df.ndim == 1 else None  # frame with axis=None
+        if len(df) == 0:
+            out = out.iloc[:0]
+        return out if dtypes is None else out.astype(dtypes)
+
+    @classmethod
+    def chunk(cls, df, **kwargs):
+        return cls._partial(df, **kwargs)
+
+    @classmethod
+    def combine(cls, inputs: list, **kwargs):
+        return cls._partial(_concat(inputs), **kwargs)
 
     @property
     def chunk_kwargs(self):
